@@ -56,6 +56,8 @@ def main():
                 print(q.stdout[-600:], q.stderr[-600:])
     finally:
         shutil.rmtree(tmp, ignore_errors=True)
+        # the run above rewrote the shared Generated/*.lean tables from the patched copy
+        subprocess.run(["/venv/bin/python", str(VERIF / "tools" / "regen.py")], cwd=VERIF, capture_output=True, env={k: v for k, v in os.environ.items() if k != "VERIF_REPO"})
 
 
 if __name__ == "__main__":
